@@ -40,7 +40,7 @@ func c05StoreWidths() []int {
 
 func verifGenSweepSquare(t *rapid.T, widths []int) *vk.Square {
 	if rapid.IntRange(0, 3).Draw(t, "tailsweep") == 0 {
-		ods := rapid.SampledFrom([]int{1, 2, 4}).Draw(t, "sweep.ods")
+		ods := rapid.SampledFrom([]int{1, 2, 2, 4, 4, 4}).Draw(t, "sweep.ods")
 		area := ods * ods
 		tail := rapid.IntRange(0, area-1).Draw(t, "sweep.tail")
 		data := area - tail
@@ -202,9 +202,9 @@ func TestVerifC05_StorePaths(t *testing.T) {
 		sq := verifGenSweepSquare(t, c05StoreWidths())
 		putQ4 := rapid.Bool().Draw(t, "putQ4")
 		recent := rapid.SampledFrom([]int{0, 1, 10}).Draw(t, "recentCache")
-		evict := rapid.Bool().Draw(t, "evict")
-		reopen := rapid.Bool().Draw(t, "reopen")
-		removeQ4 := rapid.Bool().Draw(t, "removeQ4")
+		evict := rapid.IntRange(0, 2).Draw(t, "evict") == 0
+		reopen := rapid.IntRange(0, 2).Draw(t, "reopen") == 0
+		removeQ4 := rapid.IntRange(0, 2).Draw(t, "removeQ4") == 0
 		reader := rapid.SampledFrom(c05Readers).Draw(t, "reader")
 		height := rapid.Uint64Range(1, 1<<40).Draw(t, "height")
 		seed := rapid.Uint64().Draw(t, "batteryseed")
